@@ -373,13 +373,16 @@ def run(ctx):
     # real transport (threaded pairing over 127.0.0.1, HTTP long-polling)
     from checks import c02_tcp
     ctx.require('tcp_messages_judged', 10)
-    c02_tcp.run_part(ctx, (ctx.budget or 40) * 0.12, k0=ctx.shard * 10000)
-    if ctx.counters.get('tcp_sessions_unavailable'):
-        ctx.required.pop('tcp_messages_judged', None)
+    share = (ctx.budget or 40) * 0.12
     k = ctx.shard * 8
-    while not ctx.out_of_time() and not ctx.too_many_violations():
+    while ctx.time_left() > share and not ctx.too_many_violations():
         run_case(ctx, k)
         k += 1 if ctx.nshards == 1 else 1
+    # (after the bridge: on a broken tree the real transport only times out)
+    if not ctx.too_many_violations():
+        c02_tcp.run_part(ctx, share, k0=ctx.shard * 10000)
+    if ctx.counters.get('tcp_sessions_unavailable'):
+        ctx.required.pop('tcp_messages_judged', None)
 
 
 def replay(ctx, w):
